@@ -336,6 +336,26 @@ def rule_r4(chk, p, t):
     def f1():
         cfg = cfg_of(m)
         calls = [n for n in walk_no_nested(m.node) if isinstance(n, ast.Assign) and unparse(n.targets[0]) == "self.maneuver_detected"]
+        # the detector sees EVERY update for which one is configured: the sliding-window and fading-memory statistics are
+        # functions of the whole innovation history, so a step that is decided without calling the detector (a shortcut on
+        # the step's own NIS, a cached verdict) is missing from every later window
+        det_nodes = [n.id for n in cfg.stmt_nodes() if n.kind in ("stmt", "cond", "return") and any(isinstance(c, ast.Call) and unparse(c.func) == "self.maneuver_detection" for c in ast.walk(n.ast))]
+        none_edges = []
+        for n in cfg.nodes:
+            if n.kind == "cond":
+                txt = unparse(n.ast)
+                if txt == "self.maneuver_detection is None":
+                    none_edges.append((n.id, True))
+                elif txt in ("self.maneuver_detection is not None", "self.maneuver_detection"):
+                    none_edges.append((n.id, False))
+                elif txt == "not self.maneuver_detection":
+                    none_edges.append((n.id, True))
+        if det_nodes and cfg.exit.id in cfg.reachable(cfg.entry.id, blocked_nodes=det_nodes, blocked_edges=none_edges):
+            # name the condition that opens the bypass
+            via = [unparse(n.ast)[:70] for n in cfg.nodes if n.kind == "cond" and (n.id, True) not in none_edges and (n.id, False) not in none_edges and any(cfg.exit.id in cfg.reachable(n.id, blocked_nodes=det_nodes, blocked_edges=none_edges + [(n.id, not lab)]) and n.id in cfg.reachable(cfg.entry.id, blocked_nodes=det_nodes, blocked_edges=none_edges) for lab in (True, False))]
+            r.violation(m.qualname + ":every-step", "detector-bypassed:" + ";".join(via)[:80], f"checkManeuverDetection can return without calling the configured detector (through `{via[0] if via else '?'}`): the detectors that keep a history (sliding window, fading memory) never see that step, so their statistic is no longer the documented function of the last w innovations and a detection that the window still carries is not declared", m.loc())
+            return
+        calls = [c for c in calls if isinstance(c.value, ast.Call)] or calls
         require(len(calls) == 1, "maneuver_detected is not assigned once", m.node)
         v = calls[0].value
         bad = []
